@@ -33,7 +33,30 @@ func inModule(f *ssa.Function) bool {
 
 // calleeEnv builds the environment of callee g for call cc made under env.
 func (c *Ctx) calleeEnv(cc *ssa.CallCommon, g *ssa.Function, env Env) Env {
+	return c.calleeEnvV(cc, g, env, nil)
+}
+
+// calleeEnvV additionally names the callee's returned allocations after the caller-side call value, so
+// that a check on `alloc.Field` inside a decoding helper is recognised as a check on `call#0.Field`.
+func (c *Ctx) calleeEnvV(cc *ssa.CallCommon, g *ssa.Function, env Env, callVal ssa.Value) Env {
 	ne := Env{}
+	if callVal != nil && g.Blocks != nil {
+		base := c.Path(callVal, env)
+		for _, r := range returnsOf(g) {
+			if !maySucceed(r) {
+				continue
+			}
+			for i, res := range r.Results {
+				if a, ok := res.(*ssa.Alloc); ok {
+					if len(r.Results) > 1 {
+						ne[a] = fmt.Sprintf("%s#%d", base, i)
+					} else {
+						ne[a] = base
+					}
+				}
+			}
+		}
+	}
 	args := cc.Args
 	if cc.IsInvoke() {
 		args = append([]ssa.Value{cc.Value}, cc.Args...)
@@ -71,7 +94,7 @@ func (c *Ctx) sites(f *ssa.Function, env Env, chk *GCheck, depth int) []gsite {
 								all = false
 								break
 							}
-							if ok, _ := c.ensures(g, c.calleeEnv(&x.Call, g, env), chk, depth+1); !ok {
+							if ok, _ := c.ensures(g, c.calleeEnvV(&x.Call, g, env, x), chk, depth+1); !ok {
 								all = false
 								break
 							}
@@ -485,4 +508,33 @@ func (c *Ctx) loopForall(f *ssa.Function, l *loop, cut map[edge]bool, what strin
 		}
 	}
 	return true, nil
+}
+
+// anyOf: a disjunctive check — the success edge of any alternative suffices (e.g. "nonce empty" or
+// "nonce has the configured size").
+func anyOf(name string, alts ...*GCheck) *GCheck {
+	return &GCheck{Name: name,
+		MatchCall: func(c *Ctx, call *ssa.Call, env Env) bool {
+			for _, a := range alts {
+				if a.MatchCall != nil && !a.BoolFalse && a.MatchCall(c, call, env) {
+					return true
+				}
+			}
+			return false
+		},
+		MatchCmp: func(c *Ctx, b *ssa.BinOp, env Env) (bool, bool) {
+			for _, a := range alts {
+				if a.MatchCmp != nil {
+					if m, t := a.MatchCmp(c, b, env); m {
+						return m, t
+					}
+				}
+			}
+			return false, false
+		}}
+}
+
+// cmpAccept: success is the edge on which `lhs op rhs` holds (e.g. nonce == "" short-circuits to accept).
+func cmpAccept(name string, acceptOp token.Token, lhs, rhs func(string) bool) *GCheck {
+	return cmpReject(name, negOp(acceptOp), lhs, rhs)
 }
